@@ -141,3 +141,60 @@ class StepBudget:
         finally:
             self.active = False
         return r, self.steps
+
+
+TOOL_RET = 2
+
+
+class ReturnTap:
+    """Record PY_RETURN (and RAISE) events of chosen code objects.
+
+    ``records[label]`` is a list of ``extract(frame_locals, retval)`` results (capped);
+    ``raises[label]`` counts RAISE events seen inside the code object (exceptions *raised or
+    passing through* the frame).
+    """
+
+    def __init__(self, targets: dict[str, object], extract=None, cap: int = 100000):
+        _claim(TOOL_RET, "rv-ret")
+        self._label = {}
+        for label, fn in targets.items():
+            for c in code_objects_of(fn)[:1]:
+                self._label[c] = label
+        self.records: dict[str, list] = {lab: [] for lab in targets}
+        self.raises: Counter = Counter()
+        self.returns: Counter = Counter()
+        self.extract = extract or (lambda loc, rv: rv)
+        self.cap = cap
+
+    def __enter__(self):
+        mon.register_callback(TOOL_RET, E.PY_RETURN, self._ret)
+        mon.register_callback(TOOL_RET, E.RAISE, self._raise)
+        for c in self._label:
+            mon.set_local_events(TOOL_RET, c, E.PY_RETURN)
+        mon.set_events(TOOL_RET, E.RAISE)  # RAISE cannot be enabled per code object in 3.12
+        return self
+
+    def _ret(self, code, offset, retval):
+        lab = self._label.get(code)
+        if lab is None:
+            return
+        self.returns[lab] += 1
+        if len(self.records[lab]) < self.cap:
+            try:
+                loc = sys._getframe(1).f_locals
+                self.records[lab].append(self.extract(loc, retval))
+            except Exception:  # a probe must never disturb the program
+                pass
+
+    def _raise(self, code, offset, exc):
+        lab = self._label.get(code)
+        if lab is not None:
+            self.raises[lab] += 1
+
+    def __exit__(self, *a):
+        for c in self._label:
+            mon.set_local_events(TOOL_RET, c, 0)
+        mon.set_events(TOOL_RET, 0)
+        mon.register_callback(TOOL_RET, E.PY_RETURN, None)
+        mon.register_callback(TOOL_RET, E.RAISE, None)
+        return False
